@@ -40,6 +40,20 @@ func Find(p Meta, path string) Definition {
 		}
 		return Find(p, ident)
 	}
+	if rpc, ok := p.(*Rpc); ok {
+		// schema node paths step thru the input and output of an rpc or action (RFC7950 Sec 6.5)
+		switch path {
+		case "input":
+			if in := rpc.Input(); in != nil {
+				return in
+			}
+		case "output":
+			if out := rpc.Output(); out != nil {
+				return out
+			}
+		}
+		return nil
+	}
 	if hd, ok := p.(HasDataDefinitions); ok {
 		return hd.Definition(path)
 	}
